@@ -1,17 +1,305 @@
-//! module `conv` — streams `conv.*` (not built yet).
+//! module `conv` (serves C13) — colour conversions scale to the nearest value and preserve the extremes.
+//!
+//! Streams (compared with the Lean model `EG.Model.Conv` over the generated `EG.Generated.convTable`):
+//!   conv.pairs                  -> From>To:kind;... sorted — the harness's own list of `impl From<A> for B`
+//!                                  (each entry below only compiles if the impl exists) against the translator's
+//!                                  table: a conversion added to or removed from the source shows as a disagreement
+//!                                  (kind 0 rgbRgb 1 grayGray 2 grayRgb 3 rgbGray 4 fromBinary 5 grayBinary 6 rgbBinary)
+//!   conv.c <From> <To> x y z    -> raw value of To::from(src), src = From::new(x,y,z) | From::new(x) | (x != 0)
+//!
+//! Oracle (property text on the real results; Lean statements mirrored: `C13.channelwise`,
+//! `nearest`, `monotone`, `black_white`, `widen_roundtrip`, `same_depth_keeps_channels`,
+//! `gray_rgb_equal_scaling`, `gray_rgb_gray_roundtrip`, `gray_binary_threshold`, `rgb_binary_threshold`):
+//!   extremes   black -> black, white -> white (BinaryColor: Off / On)
+//!   nearest    RGB->RGB, gray->gray, gray->RGB: every target channel t of source channel v satisfies
+//!              |2*F*t - 2*v*T| <= F (F, T the channel maxima): the representable value nearest to v*T/F
+//!   monotone   raising one source channel by one never lowers any target channel (RGB->gray/binary included)
+//!   widening   if every target channel has at least as many bits, converting back gives the source
+//!              (RGB<->RGB, gray<->gray, gray->RGB->gray)
+//!   same depth equal maxima in all channels (RGB<->BGR): channels unchanged
+//!   binary     gray -> binary: On iff 2*luma >= MAX+1; RGB -> binary: On iff Gray8::from(c).luma() >= 128
 use crate::common::*;
+use crate::m_color::{CT, GRAY_TYPES, RGB_TYPES};
+use embedded_graphics::pixelcolor::*;
 
 pub struct M;
+
+fn chan_max<C: CT>() -> Vec<u8> {
+    match C::KIND {
+        0 => vec![1],
+        1 => vec![((1u32 << C::BPP) - 1) as u8],
+        _ => C::MAXES.to_vec(),
+    }
+}
+
+fn mk<C: CT>(ch: &[u8]) -> C {
+    match C::KIND {
+        0 => C::from_u32((ch[0] != 0) as u32).1,
+        1 => C::new1(ch[0]).unwrap(),
+        _ => C::new3(ch[0], ch[1], ch[2]).unwrap(),
+    }
+}
+
+fn kind_code<A: CT, B: CT>() -> u32 {
+    let rgb = |k: u32| k == 2 || k == 3;
+    match (A::KIND, B::KIND) {
+        (a, b) if rgb(a) && rgb(b) => 0,
+        (1, 1) => 1,
+        (1, b) if rgb(b) => 2,
+        (a, 1) if rgb(a) => 3,
+        (0, _) => 4,
+        (1, 0) => 5,
+        (a, 0) if rgb(a) => 6,
+        _ => 99,
+    }
+}
+
+fn nearest(v: u8, f: u8, t: u8, out: u8) -> bool {
+    let (v, f, t, out) = (v as i64, f as i64, t as i64, out as i64);
+    (2 * f * out - 2 * v * t).abs() <= f
+}
+
+fn op_conv<A, B>(x: u8, y: u8, z: u8, ctx: &mut Ctx) -> String
+where
+    A: CT + From<B> + Into<Gray8>,
+    B: CT + From<A>,
+{
+    let fmax = chan_max::<A>();
+    let tmax = chan_max::<B>();
+    let src: A = mk::<A>(&[x, y, z]);
+    let sch = src.channels();
+    let dst: B = B::from(src);
+    let dch = dst.channels();
+    let kind = kind_code::<A, B>();
+    ctx.count(&format!("kind:{}", kind));
+    let is_black = sch.iter().all(|c| *c == 0);
+    let is_white = sch.iter().zip(fmax.iter()).all(|(c, m)| c == m);
+    // extremes
+    if is_black {
+        ctx.count("src:black");
+        ctx.expect(dch.iter().all(|c| *c == 0), "C13:black-not-black", || format!("{}->{} {:?} -> {:?}", A::NAME, B::NAME, src, dst));
+    }
+    if is_white {
+        ctx.count("src:white");
+        ctx.expect(dch.iter().zip(tmax.iter()).all(|(c, m)| c == m), "C13:white-not-white", || {
+            format!("{}->{} {:?} -> {:?}", A::NAME, B::NAME, src, dst)
+        });
+    }
+    ctx.expect(dch.iter().zip(tmax.iter()).all(|(c, m)| c <= m), "C13:target-channel-range", || format!("{:?}", dst));
+    // nearest, per channel
+    match kind {
+        0 | 1 => {
+            for i in 0..sch.len() {
+                ctx.expect(nearest(sch[i], fmax[i], tmax[i], dch[i]), "C13:channel-not-nearest", || {
+                    format!("{}->{} lane {}: {} of {} -> {} of {}", A::NAME, B::NAME, i, sch[i], fmax[i], dch[i], tmax[i])
+                });
+            }
+        }
+        2 => {
+            // gray -> RGB: every channel is the luma scaled to that channel's width
+            for i in 0..3 {
+                ctx.expect(nearest(sch[0], fmax[0], tmax[i], dch[i]), "C13:gray-to-rgb-not-equally-scaled", || {
+                    format!("{}->{} luma {} of {} -> lane {} = {} of {}", A::NAME, B::NAME, sch[0], fmax[0], i, dch[i], tmax[i])
+                });
+            }
+        }
+        _ => {}
+    }
+    // same depth (RGB <-> BGR, equal maxima): channels kept
+    if kind == 0 && fmax == tmax {
+        ctx.count("same-depth");
+        ctx.expect(sch == dch, "C13:same-depth-changes-channels", || format!("{}->{} {:?} -> {:?}", A::NAME, B::NAME, sch, dch));
+    }
+    // widening and back
+    let wide = match kind {
+        0 | 1 => fmax.iter().zip(tmax.iter()).all(|(f, t)| t >= f),
+        2 => tmax.iter().all(|t| *t >= fmax[0]),
+        _ => false,
+    };
+    if wide {
+        ctx.count("widening");
+        let back: A = A::from(dst);
+        ctx.expect(back == src, "C13:widening-roundtrip", || format!("{}->{}->{}: {:?} -> {:?} -> {:?}", A::NAME, B::NAME, A::NAME, src, dst, back));
+    }
+    // monotone in each source channel
+    if A::KIND != 0 {
+        for lane in 0..sch.len() {
+            if sch[lane] < fmax[lane] {
+                let mut up = sch.clone();
+                up[lane] += 1;
+                while up.len() < 3 {
+                    up.push(0);
+                }
+                let d2: B = B::from(mk::<A>(&up));
+                let d2ch = d2.channels();
+                ctx.expect(d2ch.iter().zip(dch.iter()).all(|(n, o)| n >= o), "C13:not-monotone", || {
+                    format!("{}->{} lane {}: {:?} -> {:?} but +1 -> {:?}", A::NAME, B::NAME, lane, sch, dch, d2ch)
+                });
+            }
+        }
+    }
+    // binary thresholds
+    if kind == 5 {
+        let on = 2 * sch[0] as u32 >= fmax[0] as u32 + 1;
+        ctx.expect((dch[0] == 1) == on, "C13:gray-binary-threshold", || format!("{} luma {} -> {:?}", A::NAME, sch[0], dst));
+    }
+    if kind == 6 {
+        let g: Gray8 = src.into();
+        let on = g.luma() >= 128;
+        ctx.expect((dch[0] == 1) == on, "C13:rgb-binary-threshold", || format!("{} {:?} luma {} -> {:?}", A::NAME, src, g.luma(), dst));
+    }
+    format!("{}", dst.raw())
+}
+
+/// One entry per `impl From<A> for B` the harness knows; an entry only compiles if the impl exists
+/// (and its reverse, which the widening check uses).
+macro_rules! conv_table {
+    ($( $from:ident => [$($to:ident),*] ;)*) => {
+        pub const PAIRS: &[(&str, &str)] = &[ $( $( (stringify!($from), stringify!($to)), )* )* ];
+        fn dispatch(from: &str, to: &str, x: u8, y: u8, z: u8, ctx: &mut Ctx) -> Option<String> {
+            $( $(
+                if from == stringify!($from) && to == stringify!($to) {
+                    return Some(op_conv::<$from, $to>(x, y, z, ctx));
+                }
+            )* )*
+            None
+        }
+        fn pair_lines() -> Vec<String> {
+            let mut v = Vec::new();
+            $( $( v.push(format!("{}>{}:{}", stringify!($from), stringify!($to), kind_code::<$from, $to>())); )* )*
+            v
+        }
+    };
+}
+
+// `impl From<Gray8> for Gray8` is the reflexive impl; the `Into<Gray8>` bound of op_conv needs nothing else.
+conv_table! {
+    Rgb332 => [Rgb444, Rgb555, Bgr555, Rgb565, Bgr565, Rgb666, Bgr666, Rgb888, Bgr888, Gray2, Gray4, Gray8, BinaryColor];
+    Rgb444 => [Rgb332, Rgb555, Bgr555, Rgb565, Bgr565, Rgb666, Bgr666, Rgb888, Bgr888, Gray2, Gray4, Gray8, BinaryColor];
+    Rgb555 => [Rgb332, Rgb444, Bgr555, Rgb565, Bgr565, Rgb666, Bgr666, Rgb888, Bgr888, Gray2, Gray4, Gray8, BinaryColor];
+    Bgr555 => [Rgb332, Rgb444, Rgb555, Rgb565, Bgr565, Rgb666, Bgr666, Rgb888, Bgr888, Gray2, Gray4, Gray8, BinaryColor];
+    Rgb565 => [Rgb332, Rgb444, Rgb555, Bgr555, Bgr565, Rgb666, Bgr666, Rgb888, Bgr888, Gray2, Gray4, Gray8, BinaryColor];
+    Bgr565 => [Rgb332, Rgb444, Rgb555, Bgr555, Rgb565, Rgb666, Bgr666, Rgb888, Bgr888, Gray2, Gray4, Gray8, BinaryColor];
+    Rgb666 => [Rgb332, Rgb444, Rgb555, Bgr555, Rgb565, Bgr565, Bgr666, Rgb888, Bgr888, Gray2, Gray4, Gray8, BinaryColor];
+    Bgr666 => [Rgb332, Rgb444, Rgb555, Bgr555, Rgb565, Bgr565, Rgb666, Rgb888, Bgr888, Gray2, Gray4, Gray8, BinaryColor];
+    Rgb888 => [Rgb332, Rgb444, Rgb555, Bgr555, Rgb565, Bgr565, Rgb666, Bgr666, Bgr888, Gray2, Gray4, Gray8, BinaryColor];
+    Bgr888 => [Rgb332, Rgb444, Rgb555, Bgr555, Rgb565, Bgr565, Rgb666, Bgr666, Rgb888, Gray2, Gray4, Gray8, BinaryColor];
+    Gray2 => [Gray4, Gray8, Rgb332, Rgb444, Rgb555, Bgr555, Rgb565, Bgr565, Rgb666, Bgr666, Rgb888, Bgr888, BinaryColor];
+    Gray4 => [Gray2, Gray8, Rgb332, Rgb444, Rgb555, Bgr555, Rgb565, Bgr565, Rgb666, Bgr666, Rgb888, Bgr888, BinaryColor];
+    Gray8 => [Gray2, Gray4, Rgb332, Rgb444, Rgb555, Bgr555, Rgb565, Bgr565, Rgb666, Bgr666, Rgb888, Bgr888, BinaryColor];
+    BinaryColor => [Rgb332, Rgb444, Rgb555, Bgr555, Rgb565, Bgr565, Rgb666, Bgr666, Rgb888, Bgr888, Gray2, Gray4, Gray8];
+}
+
+fn maxes_by_name(name: &str) -> Vec<u8> {
+    use crate::with_color_type;
+    with_color_type!(name, chan_max())
+}
 
 impl Module for M {
     fn name(&self) -> &'static str {
         "conv"
     }
     fn rule(&self) -> &'static str {
-        "not built yet"
+        "ops: for every ordered pair of types with a conversion: every source colour when the source has at most 16 bits; \
+         otherwise every value of each source channel with the other channels at {0, max, random}; \
+         black, white and the six primaries; seeded random source colours (quick 3000, thorough 60000 per pair). \
+         Non-trivial = source is neither black nor white; distinct = distinct op text."
     }
-    fn generate(&self, _pid: &str, _tier: Tier, _rng: &mut Rng, _emit: &mut dyn FnMut(String)) {}
-    fn execute(&self, op: &str, _ctx: &mut Ctx) -> String {
-        panic!("unknown op {}", op)
+
+    fn generate(&self, _pid: &str, tier: Tier, rng: &mut Rng, emit: &mut dyn FnMut(String)) {
+        emit("conv.pairs".to_string());
+        let _ = (RGB_TYPES, GRAY_TYPES);
+        for (from, to) in PAIRS {
+            let m = maxes_by_name(from);
+            let n_ch = m.len();
+            let mx = |i: usize| -> u32 {
+                if i < n_ch {
+                    m[i] as u32
+                } else {
+                    0
+                }
+            };
+            let total_bits: u32 = m.iter().map(|v| (*v as u32).count_ones()).sum();
+            let full = total_bits <= 16;
+            if full {
+                for x in 0..=mx(0) {
+                    for y in 0..=mx(1) {
+                        for z in 0..=mx(2) {
+                            emit(format!("conv.c {} {} {} {} {}", from, to, x, y, z));
+                        }
+                    }
+                }
+                continue;
+            }
+            // corners (black, white, primaries)
+            for k in 0..8u32 {
+                emit(format!("conv.c {} {} {} {} {}", from, to, (k & 1) * mx(0), ((k >> 1) & 1) * mx(1), ((k >> 2) & 1) * mx(2)));
+            }
+            // each channel exhaustively, others at {0, max, random}
+            for lane in 0..n_ch {
+                for k in 0..3 {
+                    let mut o = [0u32; 3];
+                    for i in 0..3 {
+                        o[i] = match k {
+                            0 => 0,
+                            1 => mx(i),
+                            _ => rng.below(mx(i) as u64 + 1) as u32,
+                        };
+                    }
+                    for v in 0..=mx(lane) {
+                        let mut a = o;
+                        a[lane] = v;
+                        emit(format!("conv.c {} {} {} {} {}", from, to, a[0], a[1], a[2]));
+                    }
+                }
+            }
+            let n = if tier == Tier::Quick { 3000 } else { 60_000 };
+            for _ in 0..n {
+                emit(format!(
+                    "conv.c {} {} {} {} {}",
+                    from,
+                    to,
+                    rng.below(mx(0) as u64 + 1),
+                    rng.below(mx(1) as u64 + 1),
+                    rng.below(mx(2) as u64 + 1)
+                ));
+            }
+        }
+    }
+
+    fn execute(&self, op: &str, ctx: &mut Ctx) -> String {
+        let mut t = Toks::new(op);
+        match t.str() {
+            "conv.pairs" => {
+                let mut v = pair_lines();
+                v.sort();
+                ctx.count_n("pairs", v.len() as u64);
+                v.join(";")
+            }
+            "conv.c" => {
+                let from = t.str();
+                let to = t.str();
+                let (x, y, z) = (t.u32(), t.u32(), t.u32());
+                ctx.count(&format!("from:{}", from));
+                let r = dispatch(from, to, x as u8, y as u8, z as u8, ctx);
+                match r {
+                    Some(s) => {
+                        let m = maxes_by_name(from);
+                        let a = [x, y, z];
+                        let black = (0..m.len()).all(|i| a[i] == 0);
+                        let white = (0..m.len()).all(|i| a[i] == m[i] as u32);
+                        if !black && !white {
+                            ctx.nontrivial(op);
+                        }
+                        s
+                    }
+                    None => {
+                        ctx.count("noconv");
+                        "noconv".to_string()
+                    }
+                }
+            }
+            other => panic!("unknown op {}", other),
+        }
     }
 }
